@@ -194,6 +194,28 @@ Fixpoint write_list_k (len : Z) (l : list Z) (xs : list val) (cells : list val) 
   | _, _ => (cells, true)
   end.
 
+(* ---------- DataMatrix._set_col with a column object as the value ----------
+   inserted by reference (the deliberate alias) when the generated guard says so, refused when the generated
+   length test says so, otherwise copied into a new column of the value's type (value._empty_col + col[:] = value) *)
+Definition lbind (t : ltable) (n : string) (ci : nat) (cols : list lcol) : ltable :=
+  {| l_fam := l_fam t; l_rowid := l_rowid t;
+     l_names := match lookup n (l_names t) with
+                | Some _ => replace_name n ci (l_names t)
+                | None => l_names t ++ [(n, ci)]
+                end;
+     l_cols := cols; l_sorted := l_sorted t; l_dflt := l_dflt t |}.
+
+Inductive setcol_res := SCAlias (t : ltable) | SCCopy (t : ltable) | SCBadLen | SCStuck.
+Definition setcol_value (t : ltable) (name : string) (v : lcol) (same_owner is_own : bool) (own_index : option nat) : setcol_res :=
+  let same_len := Nat.eqb (List.length (lc_cells v)) (nrows_l t) in
+  let same_ids := ids_eqb (ia (lc_rowid v)) (ia (l_rowid t)) in
+  if k_setcol_byref same_owner is_own same_len same_ids then
+    match own_index with Some ci => SCAlias (lbind t name ci (l_cols t)) | None => SCStuck end
+  else if k_setcol_badlen (Z.of_nat (List.length (lc_cells v))) (Z.of_nat (nrows_l t)) then SCBadLen
+  else SCCopy (lbind t name (List.length (l_cols t))
+                     (l_cols t ++ [{| lc_kind := lc_kind v; lc_rowid := idx_of_list (ia (l_rowid t));
+                                      lc_cells := lc_cells v; lc_owner := true; lc_tc := true |}])).
+
 (* ---------- one L1 step on the operations whose algorithms are id-based ---------- *)
 Inductive lres := LNew (t : ltable) | LUpd (i : nat) (t : ltable) | LErr | LErrUpd (i : nat) (t : ltable) | LSkip.
 (* LErrUpd: the operation raised after a partial effect *)
@@ -322,6 +344,48 @@ Definition lstep (p : list ltable) (o : op) : lres :=
                                                            lc_owner := lc_owner c; lc_tc := lc_tc c |} (l_cols t);
                                    l_sorted := l_sorted t; l_dflt := l_dflt t |} in
                       if ok then LUpd ti t' else LErrUpd ti t'
+                  end
+              end
+          end
+      end
+  | OSetColFromCol ti name t2i name2 =>
+      (* dm[name] = dm2[name2]: a column of a pool table belongs to that table and is one of its columns *)
+      match nth_error p ti, nth_error p t2i with
+      | Some t, Some t2 =>
+          match lookup name2 (l_names t2) with
+          | None => LErr
+          | Some ci =>
+              match nth_error (l_cols t2) ci with
+              | None => LSkip
+              | Some v =>
+                  match setcol_value t name v (Nat.eqb ti t2i) (Nat.eqb ti t2i) (Some ci) with
+                  | SCAlias r | SCCopy r => LUpd ti r
+                  | SCBadLen => LErr
+                  | SCStuck => LSkip
+                  end
+              end
+          end
+      | _, _ => LSkip
+      end
+  | OSetColFromSlice ti name name2 l =>
+      (* dm[name] = dm[name2][[i, j, ...]]: the slice belongs to dm but is not one of its columns *)
+      match nth_error p ti with
+      | None => LSkip
+      | Some t =>
+          match lcol_of t name2 with
+          | None => LErr
+          | Some c =>
+              match all_some (map (norm_index (nrows_l t)) l) with
+              | None => LErr
+              | Some ps =>
+                  match slice_col c ps with
+                  | None => LSkip
+                  | Some v =>
+                      match setcol_value t name v true false None with
+                      | SCAlias r | SCCopy r => LUpd ti r
+                      | SCBadLen => LErr
+                      | SCStuck => LSkip
+                      end
                   end
               end
           end
